@@ -3,7 +3,7 @@
    run guarantees, that the library's own path check and status constructor mean what the rule assumes, and that the
    single-tree planner skeleton can only produce admissible reports — for every history of extension attempts. *)
 From Coq Require Import List ZArith Bool.
-From OmplV Require Import LedgerModel LedgerProofs MotionModel MotionProofs EitModel EitProofs RrtModel RrtProofs RrtConnectModel RrtConnectProofs.
+From OmplV Require Import LedgerModel LedgerProofs MotionModel MotionProofs EitModel EitProofs RrtModel RrtProofs RrtConnectModel RrtConnectProofs LazyRrtModel LazyRrtProofs.
 Import ListNotations.
 Local Open Scope Z_scope.
 
@@ -101,6 +101,17 @@ Theorem C01_rrtconnect_reports_only_real_paths :
   end.
 Proof. exact rc_solve_spec. Qed.
 
+(* geometric::LazyRRT as a whole (LazyRrtModel.lazy_solve: motions enter the tree unchecked; when a new state satisfies the goal the
+   motions from the root to it are validated in order, the first rejected one is removed together with its subtree and planning
+   goes on), for every space, motion validator, goal, goal-bias and sample stream: a reported path starts at a start state, every
+   one of its motions was accepted by the motion validator, and its last state satisfies the goal *)
+Theorem C01_lazyrrt_reports_only_validated_paths :
+  forall (St D : Type) dist (dlt : D -> D -> bool) steer mv sat gdist (goal_state dflt : St) starts hits samples path dd,
+  ls_sol St D (lazy_solve St D dist dlt steer mv sat gdist goal_state dflt starts hits samples) = Some (path, dd) ->
+  path <> [] /\ In (hd dflt path) starts /\ consecutive (fun a b => mv a b = true) path /\ sat (last path dflt) = true.
+Proof. exact lazy_solve_spec. Qed.
+
+Print Assumptions C01_lazyrrt_reports_only_validated_paths.
 Print Assumptions C01_rrtconnect_reports_only_real_paths.
 Print Assumptions C01_rrt_reports_only_real_paths.
 Print Assumptions C01_admission_sound.
@@ -153,4 +164,18 @@ Example C01_rrtconnect_nonvacuous :
     = Some ([0; 3; 4; 7; 10]%Z, false, None) /\
   snd (rc_solve Z Z (fun a b => Z.abs (a - b)) Z.ltb zsteer2 zmvw zmvw (fun s => Z.abs (s - 30)) [30%Z] 0%Z 50 [0%Z] [4; 29; 12]%Z)
     = Some ([0; 3; 6; 9; 12; 15; 18]%Z, true, Some 12%Z).
+Proof. vm_compute. split; reflexivity. Qed.
+
+(* LazyRRT on the integer line (steps of at most 3, wall between 6 and 7): with the goal at 9 the state 9 is added unchecked,
+   satisfies the goal, the pass validates 0-3 and 3-6 and rejects 6-9: the motion is removed and planning goes on; with the goal
+   at 5 the path 0 3 5 is validated and reported *)
+Definition zsteer3b (n r : Z) : Z := if (3 <? Z.abs (r - n))%Z then (if (n <? r)%Z then n + 3 else n - 3)%Z else r.
+Definition zmv67b (a b : Z) : bool := negb ((Z.min a b <=? 6) && (7 <=? Z.max a b))%Z.
+Example C01_lazyrrt_nonvacuous :
+  (let s := lazy_solve Z Z (fun a b => Z.abs (a - b)) Z.ltb zsteer3b zmv67b (fun s => (Z.abs (s - 9) <? 1)%Z) (fun s => Z.abs (s - 9)) 9%Z 0%Z [0%Z]
+                       [false; false; false; false; false] [3; 6; 9; -3; -2]%Z in
+   (map (fun n => (l_id _ n, l_state _ n, l_valid _ n)) (ls_tree _ _ s), ls_sol _ _ s))
+  = ([(0%nat, 0%Z, true); (1%nat, 3%Z, true); (2%nat, 6%Z, true); (4%nat, (-3)%Z, false); (5%nat, (-2)%Z, false)], None) /\
+  ls_sol _ _ (lazy_solve Z Z (fun a b => Z.abs (a - b)) Z.ltb zsteer3b zmv67b (fun s => (Z.abs (s - 5) <? 1)%Z) (fun s => Z.abs (s - 5)) 5%Z 0%Z [0%Z] [false; false] [3; 5]%Z)
+  = Some ([0; 3; 5]%Z, 0%Z).
 Proof. vm_compute. split; reflexivity. Qed.
